@@ -286,6 +286,27 @@ def Region.cellOf (r : Region) (lon lat : Rat) : Option Nat :=
 def cellCounts (r : Region) (evs : List Event) : List Nat :=
   (List.range r.origins.length).map (fun i => (evs.filter (fun e => r.cellOf e.lon e.lat = some i)).length)
 
+/-! ### phase 2: the datetime-indexed frame (`to_dataframe(with_datetime=True)`, catalogs.py:385-387)
+
+`df.index = df['datetime']`: the index LABEL of a row is the event's origin time, so events sharing an origin time give
+duplicated labels.  `from_dataframe` reads the catalog id by POSITION (`df['catalog_id'].iloc[0]`, catalogs.py:207) and
+the events by column (`df[col_list]`): no label is ever consulted. -/
+
+/-- a row together with its index label (default frame: the row number; datetime frame: the origin time) -/
+structure LRow where
+  label : Int
+  row : FrameRow
+
+def toDataframeDt {R} (cat : Catalog R) : List LRow :=
+  (toDataframe cat).map (fun r => { label := r.ev.ms, row := r })
+
+/-- `from_dataframe` on a labelled frame: positional, the labels play no role -/
+def fromDataframeL {R} (df : List LRow) : Catalog R := fromDataframe (df.map (·.row))
+
+/-- what a LABEL-based scalar accessor (`df.at[label, 'catalog_id']`, `df.loc[label, …]`) sees: every row carrying the
+    label.  It is a scalar iff this list has exactly one element. -/
+def atLabel (df : List LRow) (l : Int) : List (Option Int) := (df.filter (·.label = l)).map (·.row.catalogId)
+
 /-- what a region looks like after its dict form: same polygons, same spacing; the name went through `str()`;
     magnitude bins are not carried -/
 def Region.afterDict (r : Region) : Region := { r with name := some (pyStrName r.name), magnitudes := none }
